@@ -511,7 +511,7 @@ C04_TYPEARGS_PART = (G, "gosym_part", dict(name="c04_determines_type_arguments",
                                required_sites=("wire-edit-changes-schema", "same-model-same-schema", "schema-lists-every-type-the-protocol-depends-on", "base-validates", "edited-validates"),
                                assumptions=["model family: harness zz_c04_typeargs.go: a record / enum / alias of Ns or a record of the imported Lib that the protocol reaches ONLY as a type "
                                             "argument X of Pair<X,int>, Lib.Box<X>, Opt<X> (= X?), Lib.Seq<X> (= X*), Lib.Box<Pair<int,X>>, Pair<Lib.Seq<X>,string>, LocalBox<X> (= Lib.Box<X>), "
-                                            "Lib.Box<X*>, or ONLY through a position of a structural type: string->X, X->int (map key), X[], X*3, [int, X], (uint->X)* (where the real validator refuses the "
+                                            "Lib.Box<X*>, or ONLY through a position of a structural type: string->X, X->int (map key), X[], X*3, [int, X], (uint->X)*, the base of an !enum / !flags (where the real validator refuses the "
                                             "target in that position nothing is asserted), written as step type / stream item / record field / closed alias (quick: two of the four placements per carrier)",
                                             "closure oracle: reachability over the model as written (names before validation), following definitions' bodies and type arguments; type parameters "
                                             "and primitives are leaves",
